@@ -7,6 +7,8 @@ NAMES = {  # literal value -> candidate file / directory names with that skeleto
     # (zero has skeletons of both parities: ㄱ, ㄱㄱ, ㄱㄱㄱ …; other numbers may carry an even number of trailing ㄱ)
     0: ["가", "기", "ㄱ", "고x", "a가", "각", "고기", "가구가", "거기거기", "고기가구가"], 1: ["나", "니", "ㄴ.txt", "b_나", "나가가", "나가가가가", "나ㄱㄱㄱㄱㄱㄱ"],
     2: ["다", "도", "ㄸ", "때", "다가고"], 3: ["라", "루"],
+    # skeletons that *begin* with ㅂ (the built-in namespace is the one-letter word ㅂ = 5 only): ㅂㄴ = −13, ㅂㄹ = −29
+    -13: ["바나", "보니", "ㅃㄴ.txt"], -29: ["바라", "푸르"],
     -8: ["가나", "고니", "ㄱㄴ", "까나", "가나가가", "가나가가가가"], -1: ["나가", "노고"], 8: ["가나가", "고노고"], 4: ["마", "모"], 7: ["자", "차", "짜"],
 }
 OTHER = ["readme.txt", "x", "ㅏㅏ", "123", "아", "하", "가 나", "나ㅇ"]   # match no literal (no consonant / two words / ㅇ-ㅎ word)
